@@ -97,3 +97,74 @@ Example C14_example_run :
   = Ok [([97], [([107], [50]); ([109], [48]); ([110], [52])])].
 Proof. exact ex_load. Qed.
 Print Assumptions C14_example_run.
+
+(* ------------------------------------------------------------------ over a file system (LayersFs.v) *)
+From Config Require Import LayersFs Proofs_LayersFs.
+
+(* Directory expansion is in the model: a member is loaded iff it is a regular file (or a
+   link to one) whose pathlib suffix is ".conf"; "<stem>.conf" with a non-empty stem has
+   that suffix, a name without a dot has none. *)
+Theorem C14_eligible_spec :
+  forall name k, eligible name k = true <-> kind_is_file k = true /\ py_suffix name = s_conf.
+Proof. exact eligible_spec. Qed.
+Print Assumptions C14_eligible_spec.
+
+Theorem C14_suffix_conf : forall stem, stem <> [] -> py_suffix (stem ++ s_conf) = s_conf.
+Proof. exact py_suffix_conf. Qed.
+Print Assumptions C14_suffix_conf.
+
+Theorem C14_suffix_nodot : forall name, ~ In DOT name -> py_suffix name = [].
+Proof. exact py_suffix_nodot. Qed.
+Print Assumptions C14_suffix_nodot.
+
+(* Frame over the file system: a load is a function of the contents of the paths it touches
+   (the listed paths, the eligible members of listed directories and where they resolve). *)
+Theorem C14_load_depends_on_touched_paths :
+  forall fs1 fs2 defaults paths overrides,
+    agree_on (touched fs1 paths) fs1 fs2 ->
+    load_paths fs1 defaults paths overrides = load_paths fs2 defaults paths overrides.
+Proof. exact load_paths_agree. Qed.
+Print Assumptions C14_load_depends_on_touched_paths.
+
+(* Reload: after ANY history of loads, edits and re-links, a load returns load_paths of the
+   file system as it is now; earlier loads leave no trace. *)
+Theorem C14_reload_current :
+  forall fs history d ps o,
+    snd (run fs (history ++ [Load d ps o]))
+    = snd (run fs history) ++ [load_paths (fst (run fs history)) d ps o].
+Proof. exact reload_current. Qed.
+Print Assumptions C14_reload_current.
+
+Theorem C14_reload_history_independent :
+  forall fsA fsB hA hB d ps o,
+    agree_on (touched (fst (run fsA hA)) ps) (fst (run fsA hA)) (fst (run fsB hB)) ->
+    last (snd (run fsA (hA ++ [Load d ps o]))) (Ok []) = last (snd (run fsB (hB ++ [Load d ps o]))) (Ok []).
+Proof. exact reload_history_independent. Qed.
+Print Assumptions C14_reload_history_independent.
+
+Theorem C14_edit_untouched_irrelevant :
+  forall fs p n d ps o,
+    ~ In p (touched fs ps) -> load_paths (fs_set fs p n) d ps o = load_paths fs d ps o.
+Proof. exact edit_untouched_irrelevant. Qed.
+Print Assumptions C14_edit_untouched_irrelevant.
+
+Example C14_suffix_examples :
+  py_suffix s_conf = []
+  /\ py_suffix [97; 46; 99; 111; 110; 102] = s_conf
+  /\ py_suffix [100; 46; 67; 79; 78; 70] = [46; 67; 79; 78; 70]
+  /\ py_suffix [110; 46; 99; 111; 110; 102; 46; 98; 97; 107] = [46; 98; 97; 107]
+  /\ py_suffix [97; 46] = []
+  /\ eligible [97; 46; 99; 111; 110; 102] KRegular = true
+  /\ eligible [97; 46; 99; 111; 110; 102] KLinkToFile = true
+  /\ eligible [97; 46; 99; 111; 110; 102] KDirectory = false
+  /\ eligible [97; 46; 99; 111; 110; 102] KSocket = false
+  /\ eligible [97; 46; 99; 111; 110; 102] KDangling = false
+  /\ eligible s_conf KRegular = false.
+Proof. exact py_suffix_examples. Qed.
+Print Assumptions C14_suffix_examples.
+
+Example C14_reload_example :
+  snd (run ex_fs [Load [] [[102]] []; Edit [102] (NFile (Lines false [Header [97]; Opt [107] [50]])); Load [] [[102]] []])
+  = [Ok [([97], [([107], [49])])]; Ok [([97], [([107], [50])])]].
+Proof. exact ex_reload. Qed.
+Print Assumptions C14_reload_example.
